@@ -256,6 +256,18 @@ def registry_rebuilt(prog, rep):
     b = prog.one(S + "Snap::build_from_raw")
     ir = IR(b)
     clears = [bi for bi, t in b.calls() if (t.get("callee") or "").endswith("BTreeMap::clear") and "extended_types" in show(ir.term_operand(bi, t["args"][0]))]
+    # `self.extended_types = BTreeMap::new()` resets it just as well
+    for bi in sorted(b.live):
+        for si, st in enumerate(b.blocks[bi]["st"]):
+            if st["k"] == "assign" and st["p"].get("pr"):
+                pe = ir.place(st["p"], (bi, si))
+                if ir.access_path(pe)[1] == ("extended_types",):
+                    v = ir.rvalue(st["r"], (bi, si))
+                    if v[0] == "call" and v[1].endswith("::new") or (v[0] == "call" and v[1].endswith("::default")):
+                        clears.append(bi)
+        t = b.blocks[bi]["term"]
+        if t["k"] == "call" and (t.get("callee") or "").split("::")[-1] in ("new", "default") and t.get("dest"):
+            pass
     ins = [(bi, t) for bi, t in b.calls() if (t.get("callee") or "").endswith("BTreeMap::insert") and "extended_types" in show(ir.term_operand(bi, t["args"][0]))]
     rep.floor(rule, len(ins), 1, "extended_types.insert in build_from_raw")
     for bi, t in ins:
